@@ -323,6 +323,34 @@ theorem C07_concrete_wire_accept_is_verified (e : Env) (w : E2E.Wire) (vh : Opti
     obtain ⟨look, hl, hacc⟩ := C07_concrete_accept_is_verified e p w vh path ak r s h
     exact ⟨p, look, rfl, hl, hacc⟩
 
+/-- `NoMaterial` read off the wire: for a request that `ops::prepare` takes as far as the signature check, the context
+    carries no material exactly when no header line is named `authorization` (in any spelling of the letters' case),
+    the query string — if there is one — has neither a `Signature` nor an `X-Amz-Signature` parameter (names as the
+    query parser decodes them, case-sensitive), and the request is not a POST with content type `multipart/form-data` -/
+theorem C07_concrete_no_material_on_the_wire (w : E2E.Wire) (p : E2E.Prepared) (h : E2E.prepareCtx w = .ok p) :
+    NoMaterial p ↔
+      (∀ x ∈ w.headers, lower x.1 ≠ b!"authorization") ∧
+      (∀ q, w.rawQuery = some q →
+        qsHas (orderedQs q) b!"Signature" = false ∧ qsHas (orderedQs q) b!"X-Amz-Signature" = false) ∧
+      postForm p = none := by
+  obtain ⟨hhs, -, hq, hqs⟩ := prepareCtx_ok h
+  have hq2 : ((p.hasQuery && qsHas p.c.qs b!"Signature") = false ∧
+      (p.hasQuery && qsHas p.c.qs b!"X-Amz-Signature") = false) ↔
+      (∀ q, w.rawQuery = some q →
+        qsHas (orderedQs q) b!"Signature" = false ∧ qsHas (orderedQs q) b!"X-Amz-Signature" = false) := by
+    rw [hq, hqs]
+    cases w.rawQuery with
+    | none => simp
+    | some q => simp
+  constructor
+  · intro hn
+    exact ⟨(noHeader_iff hhs _).mp ⟨hn.authorizationNotRepeated, hn.noAuthorization⟩,
+      hq2.mp ⟨hn.noV2Query, hn.noV4Query⟩, hn.notPostForm⟩
+  · rintro ⟨h1, h2, h3⟩
+    have ha := (noHeader_iff hhs _).mpr h1
+    have hb := hq2.mpr h2
+    exact ⟨ha.1, ha.2, hb.1, hb.2, h3⟩
+
 /-! ## non-vacuity: one request on the wire per branch that `ops::prepare` + `SignatureContext::check` accepts
 
 The crypto parameters are constant functions (the theorems hold for arbitrary ones): every HMAC-SHA-256 is 32 zero
